@@ -397,6 +397,16 @@ func (in *c06inst) Battery() (vs []*lib.Violation) {
 		if err == nil {
 			vs = append(vs, viol("C06/"+cfg+"/storage-failure-reported-as-success", fmt.Sprintf("[%s] storage call %d (%v) of %s failed, but the operation returned success", cfg, j, fw.rec.Calls[len(fw.rec.Calls)-1], last), "error", "nil"))
 		}
+		// a failed operation may have applied or not, id by id - but it must not leave
+		// any id with a value it had neither before nor would have had after (in
+		// particular it must not destroy what earlier, acknowledged operations stored)
+		fd := fw.durable()
+		for _, id := range allIds(sPrev, sNext, fd) {
+			if fd[id] != sPrev[id] && fd[id] != sNext[id] {
+				vs = append(vs, viol("C06/"+cfg+"/failed-operation-leaves-foreign-state", fmt.Sprintf("[%s] storage call %d of %s failed (the operation reported %v): id %s holds %q in storage, neither its value before the operation (%q) nor after it (%q)", cfg, j, last, err, id, fd[id], sPrev[id], sNext[id]), []string{sPrev[id], sNext[id]}, fd[id]))
+				break
+			}
+		}
 		fw.close()
 		// one more operation after the fault: acknowledged work must be durable
 		for ci, cop := range in.ops {
